@@ -443,6 +443,12 @@ impl<const Z: usize> PartialEq for TokZ<Z> {
     }
 }
 impl<const Z: usize> Eq for TokZ<Z> {}
+impl<const Z: usize> PartialOrd for TokZ<Z> {
+    fn partial_cmp(&self, _o: &Self) -> Option<CmpOrdering> {
+        callback_point("partial_cmp");
+        Some(CmpOrdering::Equal)
+    }
+}
 impl<const Z: usize> Hash for TokZ<Z> {
     fn hash<H: Hasher>(&self, _h: &mut H) {
         callback_point("hash");
